@@ -313,6 +313,25 @@ Qed.
 Lemma mkdir_p_file_at p fs fs' : mkdir_p p fs = Some fs' -> forall q, file_at q fs' = file_at q fs.
 Proof. exact (mkdirs_file_at p [] fs fs'). Qed.
 
+(* the directory branches never report a file result *)
+Lemma cp_dir_not_ok s g fs fs' e : cp_dir s g fs <> Ok fs' e.
+Proof. unfold cp_dir. repeat match goal with |- context [if ?x then _ else _] => destruct x end; discriminate. Qed.
+
+Lemma mv_dir_not_ok s g fs fs' e : mv_dir s g fs <> Ok fs' e.
+Proof. unfold mv_dir. repeat match goal with |- context [if ?x then _ else _] => destruct x end; discriminate. Qed.
+
+Lemma cp_dir_fail s g fs fs' : cp_dir s g fs = Fail fs' -> fs' = fs.
+Proof.
+  unfold cp_dir. repeat match goal with |- context [if ?x then _ else _] => destruct x end;
+    intro H; try discriminate; injection H as <-; reflexivity.
+Qed.
+
+Lemma mv_dir_fail s g fs fs' : mv_dir s g fs = Fail fs' -> fs' = fs.
+Proof.
+  unfold mv_dir. repeat match goal with |- context [if ?x then _ else _] => destruct x end;
+    intro H; try discriminate; injection H as <-; reflexivity.
+Qed.
+
 (* what a successful operation guarantees: the written path holds the content
    the source had, everything else keeps its content (except the source of a
    move) *)
@@ -326,7 +345,8 @@ Proof.
   unfold op_copy. destruct (r_empty g); [discriminate|].
   destruct (mkdir_p (dirname_of g) fs) as [fs1|] eqn:Em; [|discriminate].
   destruct (r_empty s); [discriminate|].
-  destruct (file_at (r_comps s) fs1) as [c|] eqn:Ef; [|discriminate].
+  destruct (file_at (r_comps s) fs1) as [c|] eqn:Ef;
+    [|destruct (is_dir (r_comps s) fs1); [intro H; exfalso; exact (cp_dir_not_ok _ _ _ _ _ H)|discriminate]].
   unfold cp_into.
   destruct (is_dir (r_comps g) fs1) eqn:Egd.
   - destruct (r_trail g && negb true); [discriminate|].
@@ -366,7 +386,8 @@ Proof.
   unfold op_move. destruct (r_empty g); [discriminate|].
   destruct (mkdir_p (dirname_of g) fs) as [fs1|] eqn:Em; [|discriminate].
   destruct (r_empty s); [discriminate|].
-  destruct (file_at (r_comps s) fs1) as [c|] eqn:Ef; [|discriminate].
+  destruct (file_at (r_comps s) fs1) as [c|] eqn:Ef;
+    [|destruct (is_dir (r_comps s) fs1); [intro H; exfalso; exact (mv_dir_not_ok _ _ _ _ _ H)|discriminate]].
   destruct (is_dir (r_comps g) fs1) eqn:Egd.
   - destruct (true && exists_at (r_comps g ++ [last (r_comps s) ""]) fs1); [discriminate|].
     destruct (r_trail g && negb true); [discriminate|].
@@ -409,12 +430,18 @@ Proof.
   - unfold op_copy in H. destruct (r_empty g); [injection H as <-; reflexivity|].
     destruct (mkdir_p (dirname_of g) fs) as [fs1|] eqn:Em; [|injection H as <-; reflexivity].
     destruct (r_empty s); [injection H as <-; exact (mkdir_p_file_at _ _ _ Em q)|].
-    destruct (file_at (r_comps s) fs1); [|injection H as <-; exact (mkdir_p_file_at _ _ _ Em q)].
+    destruct (file_at (r_comps s) fs1);
+      [|destruct (is_dir (r_comps s) fs1);
+        [apply cp_dir_fail in H; subst fs'; exact (mkdir_p_file_at _ _ _ Em q)
+        |injection H as <-; exact (mkdir_p_file_at _ _ _ Em q)]].
     apply Hcp in H. subst fs'. exact (mkdir_p_file_at _ _ _ Em q).
   - unfold op_copy in H. destruct (r_empty g); [injection H as <-; reflexivity|].
     destruct (mkdir_p (dirname_of g) fs) as [fs1|] eqn:Em; [|injection H as <-; reflexivity].
     destruct (r_empty s); [injection H as <-; exact (mkdir_p_file_at _ _ _ Em q)|].
-    destruct (file_at (r_comps s) fs1); [|injection H as <-; exact (mkdir_p_file_at _ _ _ Em q)].
+    destruct (file_at (r_comps s) fs1);
+      [|destruct (is_dir (r_comps s) fs1);
+        [apply cp_dir_fail in H; subst fs'; exact (mkdir_p_file_at _ _ _ Em q)
+        |injection H as <-; exact (mkdir_p_file_at _ _ _ Em q)]].
     apply Hcp in H. subst fs'. exact (mkdir_p_file_at _ _ _ Em q).
   - unfold op_link in H. destruct (r_empty g); [injection H as <-; reflexivity|].
     destruct (mkdir_p (dirname_of g) fs) as [fs1|] eqn:Em; [|injection H as <-; reflexivity].
@@ -425,7 +452,10 @@ Proof.
   - unfold op_move in H. destruct (r_empty g); [injection H as <-; reflexivity|].
     destruct (mkdir_p (dirname_of g) fs) as [fs1|] eqn:Em; [|injection H as <-; reflexivity].
     destruct (r_empty s); [injection H as <-; exact (mkdir_p_file_at _ _ _ Em q)|].
-    destruct (file_at (r_comps s) fs1); [|injection H as <-; exact (mkdir_p_file_at _ _ _ Em q)].
+    destruct (file_at (r_comps s) fs1);
+      [|destruct (is_dir (r_comps s) fs1);
+        [apply mv_dir_fail in H; subst fs'; exact (mkdir_p_file_at _ _ _ Em q)
+        |injection H as <-; exact (mkdir_p_file_at _ _ _ Em q)]].
     repeat match type of H with context [if ?x then _ else _] => destruct x end; try discriminate;
       injection H as <-; exact (mkdir_p_file_at _ _ _ Em q).
 Qed.
@@ -433,6 +463,13 @@ Qed.
 (* -------------------------------------------------- directive lists (induction) *)
 
 Definition keeps (d : sd) : bool := negb (action_eqb (s_act d) Move) && negb (action_eqb (s_act d) Tarball).
+
+(* every directive of the run wrote a file (no directory tree was copied or moved) *)
+Fixpoint files_only (step : sd -> fsys -> res) (l : list sd) (fs : fsys) : bool :=
+  match l with
+  | [] => true
+  | d :: r => match step d fs with Ok fs' _ => files_only step r fs' | OkDir _ _ => false | Fail _ => true end
+  end.
 
 Section Steps.
   Variable step : sd -> fsys -> res.
@@ -447,49 +484,52 @@ Section Steps.
   Proof.
     induction l as [|d l IH]; intros fs lg; cbn [steps].
     - cbn [h_ok h_fs h_log]. rewrite app_nil_r. reflexivity.
-    - destruct (step d fs) as [fs1 e|fs1].
+    - destruct (step d fs) as [fs1 e|fs1 e|fs1].
       + destruct (action_eqb (s_act d) Tarball).
         * rewrite (IH fs1 lg). reflexivity.
         * rewrite (IH fs1 (lg ++ _)). rewrite (IH fs1 ([] ++ _)). cbn [h_ok h_fs h_log app].
           rewrite <- app_assoc. reflexivity.
+      + rewrite (IH fs1 lg). reflexivity.
       + cbn [h_ok h_fs h_log]. rewrite app_nil_r. reflexivity.
   Qed.
 
   (* paths not written by the list keep their content *)
-  Lemma steps_frame l : forall fs, forallb keeps l = true -> h_ok (steps step l fs []) = true ->
+  Lemma steps_frame l : forall fs, forallb keeps l = true -> files_only step l fs = true ->
+    h_ok (steps step l fs []) = true ->
     forall q, ~ In q (map fst (h_log (steps step l fs []))) ->
     file_at q (h_fs (steps step l fs [])) = file_at q fs.
   Proof.
-    induction l as [|d l IH]; intros fs Hk Hok q Hq; [reflexivity|].
+    induction l as [|d l IH]; intros fs Hk Hfo Hok q Hq; [reflexivity|].
     cbn [forallb] in Hk. apply andb_true_iff in Hk as [Hk1 Hk2].
-    cbn [steps] in *. destruct (step d fs) as [fs1 e|fs1] eqn:Es; [|discriminate].
+    cbn [steps files_only] in *. destruct (step d fs) as [fs1 e|fs1 e|fs1] eqn:Es; [|discriminate|discriminate].
     assert (Ht : action_eqb (s_act d) Tarball = false)
       by (unfold keeps in Hk1; apply andb_true_iff in Hk1 as [_ H]; apply negb_true_iff in H; exact H).
     rewrite Ht in *. rewrite steps_acc in *. cbn [h_ok h_fs h_log app] in *.
     destruct (step_frame _ _ _ _ Es Hk1) as [c [Hc Hf]].
-    rewrite (IH fs1 Hk2 Hok q); [|intro Hin; apply Hq; cbn [map fst]; right; exact Hin].
+    rewrite (IH fs1 Hk2 Hfo Hok q); [|intro Hin; apply Hq; cbn [map fst]; right; exact Hin].
     apply Hf. intro Heq. apply Hq. cbn [map fst]. left. symmetry. exact Heq.
   Qed.
 
   (* every directive of a successful list is logged, and -- targets being
      pairwise different -- every logged path still holds what was written *)
-  Lemma steps_persist l : forall fs, forallb keeps l = true -> h_ok (steps step l fs []) = true ->
+  Lemma steps_persist l : forall fs, forallb keeps l = true -> files_only step l fs = true ->
+    h_ok (steps step l fs []) = true ->
     NoDup (map fst (h_log (steps step l fs []))) ->
     List.length (h_log (steps step l fs [])) = List.length l /\
     Forall (fun ec => file_at (fst ec) (h_fs (steps step l fs [])) = Some (snd ec)) (h_log (steps step l fs [])).
   Proof.
-    induction l as [|d l IH]; intros fs Hk Hok Hnd; [split; [reflexivity|constructor]|].
+    induction l as [|d l IH]; intros fs Hk Hfo Hok Hnd; [split; [reflexivity|constructor]|].
     cbn [forallb] in Hk. apply andb_true_iff in Hk as [Hk1 Hk2].
-    cbn [steps] in *. destruct (step d fs) as [fs1 e|fs1] eqn:Es; [|discriminate].
+    cbn [steps files_only] in *. destruct (step d fs) as [fs1 e|fs1 e|fs1] eqn:Es; [|discriminate|discriminate].
     assert (Ht : action_eqb (s_act d) Tarball = false)
       by (unfold keeps in Hk1; apply andb_true_iff in Hk1 as [_ H]; apply negb_true_iff in H; exact H).
     rewrite Ht in *. rewrite steps_acc in *. cbn [h_ok h_fs h_log app map fst] in *.
     destruct (step_frame _ _ _ _ Es Hk1) as [c [Hc Hf]].
     inversion Hnd as [|x xs Hnotin Hnd']; subst.
-    destruct (IH fs1 Hk2 Hok Hnd') as [Hlen Hall].
+    destruct (IH fs1 Hk2 Hfo Hok Hnd') as [Hlen Hall].
     split; [cbn [List.length]; rewrite Hlen; reflexivity|].
     constructor; [|exact Hall].
-    cbn [fst snd]. rewrite (steps_frame l fs1 Hk2 Hok e Hnotin). rewrite Hc. reflexivity.
+    cbn [fst snd]. rewrite (steps_frame l fs1 Hk2 Hfo Hok e Hnotin). rewrite Hc. reflexivity.
   Qed.
 End Steps.
 
@@ -548,6 +588,13 @@ Qed.
 Fixpoint no_tar (l : list rsd) : bool :=
   match l with [] => true | RSd a _ _ :: r => negb (is_move a) && no_tar r | RTar _ :: _ => false end.
 
+Fixpoint files_only_rs (l : list rsd) (fs : fsys) : bool :=
+  match l with
+  | RSd a s g :: r =>
+      match handle_sd a s g fs with Ok fs' _ => files_only_rs r fs' | OkDir _ _ => false | Fail _ => true end
+  | _ => true
+  end.
+
 Lemma copy_all_acc tar l : forall fs lg,
   copy_all tar l fs lg =
   {| h_ok := h_ok (copy_all tar l fs []); h_fs := h_fs (copy_all tar l fs []);
@@ -555,45 +602,51 @@ Lemma copy_all_acc tar l : forall fs lg,
 Proof.
   induction l as [|[a s g|g] l IH]; intros fs lg; cbn [copy_all].
   - rewrite app_nil_r. reflexivity.
-  - destruct (handle_sd a s g fs) as [fs1 e|fs1].
+  - destruct (handle_sd a s g fs) as [fs1 e|fs1 e|fs1].
     + rewrite (IH fs1 (lg ++ _)). rewrite (IH fs1 ([] ++ _)). cbn [h_ok h_fs h_log app].
       rewrite <- app_assoc. reflexivity.
+    + rewrite (IH fs1 lg). reflexivity.
     + rewrite app_nil_r. reflexivity.
   - destruct (r_empty g); [rewrite app_nil_r; reflexivity|].
     destruct (mkdir_p (dirname_of g) fs); [|rewrite app_nil_r; reflexivity].
-    destruct (cp_into (Tar tar) "TMPTAR" None g f) as [fs1 e|fs1].
+    destruct (cp_into (Tar tar) "TMPTAR" None g f) as [fs1 e|fs1 e|fs1].
+    + rewrite (IH fs1 lg). reflexivity.
     + rewrite (IH fs1 lg). reflexivity.
     + rewrite app_nil_r. reflexivity.
 Qed.
 
-Lemma copy_all_frame tar l : forall fs, no_tar l = true -> h_ok (copy_all tar l fs []) = true ->
+Lemma copy_all_frame tar l : forall fs, no_tar l = true -> files_only_rs l fs = true ->
+  h_ok (copy_all tar l fs []) = true ->
   forall q, ~ In q (map fst (h_log (copy_all tar l fs []))) ->
   file_at q (h_fs (copy_all tar l fs [])) = file_at q fs.
 Proof.
-  induction l as [|[a s g|g] l IH]; intros fs Hk Hok q Hq; [reflexivity| |discriminate].
+  induction l as [|[a s g|g] l IH]; intros fs Hk Hfo Hok q Hq; [reflexivity| |discriminate].
   cbn [no_tar] in Hk. apply andb_true_iff in Hk as [Hk1 Hk2]. apply negb_true_iff in Hk1.
-  cbn [copy_all] in *. destruct (handle_sd a s g fs) as [fs1 e|fs1] eqn:Es; [|discriminate].
+  cbn [copy_all files_only_rs] in *.
+  destruct (handle_sd a s g fs) as [fs1 e|fs1 e|fs1] eqn:Es; [|discriminate|discriminate].
   rewrite copy_all_acc in *. cbn [h_ok h_fs h_log app] in *.
   destruct (handle_sd_spec _ _ _ _ _ _ Es) as [c [_ [Hc [_ Hf]]]].
-  rewrite (IH fs1 Hk2 Hok q); [|intro Hin; apply Hq; cbn [map fst]; right; exact Hin].
+  rewrite (IH fs1 Hk2 Hfo Hok q); [|intro Hin; apply Hq; cbn [map fst]; right; exact Hin].
   apply Hf; [|rewrite Hk1; discriminate]. intro Heq. apply Hq. cbn [map fst]. left. symmetry. exact Heq.
 Qed.
 
-Lemma copy_all_persist tar l : forall fs, no_tar l = true -> h_ok (copy_all tar l fs []) = true ->
+Lemma copy_all_persist tar l : forall fs, no_tar l = true -> files_only_rs l fs = true ->
+  h_ok (copy_all tar l fs []) = true ->
   NoDup (map fst (h_log (copy_all tar l fs []))) ->
   List.length (h_log (copy_all tar l fs [])) = List.length l /\
   Forall (fun ec => file_at (fst ec) (h_fs (copy_all tar l fs [])) = Some (snd ec)) (h_log (copy_all tar l fs [])).
 Proof.
-  induction l as [|[a s g|g] l IH]; intros fs Hk Hok Hnd; [split; [reflexivity|constructor]| |discriminate].
+  induction l as [|[a s g|g] l IH]; intros fs Hk Hfo Hok Hnd; [split; [reflexivity|constructor]| |discriminate].
   cbn [no_tar] in Hk. apply andb_true_iff in Hk as [Hk1 Hk2]. apply negb_true_iff in Hk1.
-  cbn [copy_all] in *. destruct (handle_sd a s g fs) as [fs1 e|fs1] eqn:Es; [|discriminate].
+  cbn [copy_all files_only_rs] in *.
+  destruct (handle_sd a s g fs) as [fs1 e|fs1 e|fs1] eqn:Es; [|discriminate|discriminate].
   rewrite copy_all_acc in *. cbn [h_ok h_fs h_log app map fst] in *.
   destruct (handle_sd_spec _ _ _ _ _ _ Es) as [c [_ [Hc _]]].
   inversion Hnd as [|x xs Hnotin Hnd']; subst.
-  destruct (IH fs1 Hk2 Hok Hnd') as [Hlen Hall].
+  destruct (IH fs1 Hk2 Hfo Hok Hnd') as [Hlen Hall].
   split; [cbn [List.length]; rewrite Hlen; reflexivity|].
   constructor; [|exact Hall].
-  cbn [fst snd]. rewrite (copy_all_frame tar l fs1 Hk2 Hok e Hnotin). rewrite Hc. reflexivity.
+  cbn [fst snd]. rewrite (copy_all_frame tar l fs1 Hk2 Hfo Hok e Hnotin). rewrite Hc. reflexivity.
 Qed.
 
 (* ------------------------------------------------ skip on failure, failure isolation *)
@@ -710,14 +763,14 @@ Definition agent_si_steps t := steps (agent_in_step t).
 Definition agent_so_steps t := steps (agent_out_step t).
 
 Lemma agent_input_persist t l fs :
-  forallb keeps l = true -> h_ok (agent_si_steps t l fs []) = true ->
+  forallb keeps l = true -> files_only (agent_in_step t) l fs = true -> h_ok (agent_si_steps t l fs []) = true ->
   NoDup (map fst (h_log (agent_si_steps t l fs []))) ->
   List.length (h_log (agent_si_steps t l fs [])) = List.length l /\
   Forall (fun ec => file_at (fst ec) (h_fs (agent_si_steps t l fs [])) = Some (snd ec)) (h_log (agent_si_steps t l fs [])).
 Proof. exact (steps_persist (agent_in_step t) (agent_in_frame t) l fs). Qed.
 
 Lemma agent_output_persist t l fs :
-  forallb keeps l = true -> h_ok (agent_so_steps t l fs []) = true ->
+  forallb keeps l = true -> files_only (agent_out_step t) l fs = true -> h_ok (agent_so_steps t l fs []) = true ->
   NoDup (map fst (h_log (agent_so_steps t l fs []))) ->
   List.length (h_log (agent_so_steps t l fs [])) = List.length l /\
   Forall (fun ec => file_at (fst ec) (h_fs (agent_so_steps t l fs [])) = Some (snd ec)) (h_log (agent_so_steps t l fs [])).
@@ -742,7 +795,7 @@ Lemma empty_target_staged :
     let '(_, fs', fin) := run_case
       [ {| ti_uid := "t0"; ti_sb := ex_sb "t0";
            ti_in := [ SDict (Some (if client_side_b a then "a.dat" else "pilot:///sh.dat")) (Some "") (Some a) false ];
-           ti_out := []; ti_soe := false; ti_outcome := DONE; ti_exec := [] |} ] ex_fs in
+           ti_out := []; ti_soe := false; ti_outcome := DONE; ti_exec := []; ti_ops := [] |} ] ex_fs in
     map (fun t => last (t_pub t) DONE) fin = [DONE] /\
     file_at (["R"; "rsb"; "s1"; "p0"; "t0"] ++ [if client_side_b a then "a.dat" else "sh.dat"]) fs'
       = Some (Plain (if client_side_b a then 1 else 3)).
@@ -756,7 +809,8 @@ Section LastWriter.
     exists c, file_at e fs' = Some c /\ forall q, q <> e -> file_at q fs' = file_at q fs.
 
   (* no hypothesis on the targets: they may collide *)
-  Lemma steps_last_writer l : forall fs, forallb keeps l = true -> h_ok (steps step l fs []) = true ->
+  Lemma steps_last_writer l : forall fs, forallb keeps l = true -> files_only step l fs = true ->
+    h_ok (steps step l fs []) = true ->
     List.length (h_log (steps step l fs [])) = List.length l /\
     forall q, file_at q (h_fs (steps step l fs [])) =
               match last_write q (h_log (steps step l fs [])) with
@@ -764,14 +818,14 @@ Section LastWriter.
               | None => file_at q fs
               end.
   Proof.
-    induction l as [|d l IH]; intros fs Hk Hok; [split; reflexivity|].
+    induction l as [|d l IH]; intros fs Hk Hfo Hok; [split; reflexivity|].
     cbn [forallb] in Hk. apply andb_true_iff in Hk as [Hk1 Hk2].
-    cbn [steps] in *. destruct (step d fs) as [fs1 e|fs1] eqn:Es; [|discriminate].
+    cbn [steps files_only] in *. destruct (step d fs) as [fs1 e|fs1 e|fs1] eqn:Es; [|discriminate|discriminate].
     assert (Ht : action_eqb (s_act d) Tarball = false)
       by (unfold keeps in Hk1; apply andb_true_iff in Hk1 as [_ H]; apply negb_true_iff in H; exact H).
     rewrite Ht in *. rewrite steps_acc in *. cbn [h_ok h_fs h_log app] in *.
     destruct (step_frame _ _ _ _ Es Hk1) as [c [Hc Hf]].
-    destruct (IH fs1 Hk2 Hok) as [Hlen Hall].
+    destruct (IH fs1 Hk2 Hfo Hok) as [Hlen Hall].
     split; [cbn [List.length]; rewrite Hlen; reflexivity|].
     intro q. rewrite (Hall q). cbn [last_write].
     destruct (last_write q (h_log (steps step l fs1 []))); [reflexivity|].
@@ -782,30 +836,32 @@ Section LastWriter.
 End LastWriter.
 
 Lemma agent_input_last_writer t l fs :
-  forallb keeps l = true -> h_ok (agent_si_steps t l fs []) = true ->
+  forallb keeps l = true -> files_only (agent_in_step t) l fs = true -> h_ok (agent_si_steps t l fs []) = true ->
   List.length (h_log (agent_si_steps t l fs [])) = List.length l /\
   forall q, file_at q (h_fs (agent_si_steps t l fs [])) =
             match last_write q (h_log (agent_si_steps t l fs [])) with Some c => Some c | None => file_at q fs end.
 Proof. exact (steps_last_writer (agent_in_step t) (agent_in_frame t) l fs). Qed.
 
 Lemma agent_output_last_writer t l fs :
-  forallb keeps l = true -> h_ok (agent_so_steps t l fs []) = true ->
+  forallb keeps l = true -> files_only (agent_out_step t) l fs = true -> h_ok (agent_so_steps t l fs []) = true ->
   List.length (h_log (agent_so_steps t l fs [])) = List.length l /\
   forall q, file_at q (h_fs (agent_so_steps t l fs [])) =
             match last_write q (h_log (agent_so_steps t l fs [])) with Some c => Some c | None => file_at q fs end.
 Proof. exact (steps_last_writer (agent_out_step t) (agent_out_frame t) l fs). Qed.
 
-Lemma copy_all_last_writer tar l : forall fs, no_tar l = true -> h_ok (copy_all tar l fs []) = true ->
+Lemma copy_all_last_writer tar l : forall fs, no_tar l = true -> files_only_rs l fs = true ->
+  h_ok (copy_all tar l fs []) = true ->
   List.length (h_log (copy_all tar l fs [])) = List.length l /\
   forall q, file_at q (h_fs (copy_all tar l fs [])) =
             match last_write q (h_log (copy_all tar l fs [])) with Some c => Some c | None => file_at q fs end.
 Proof.
-  induction l as [|[a s g|g] l IH]; intros fs Hk Hok; [split; reflexivity| |discriminate].
+  induction l as [|[a s g|g] l IH]; intros fs Hk Hfo Hok; [split; reflexivity| |discriminate].
   cbn [no_tar] in Hk. apply andb_true_iff in Hk as [Hk1 Hk2]. apply negb_true_iff in Hk1.
-  cbn [copy_all] in *. destruct (handle_sd a s g fs) as [fs1 e|fs1] eqn:Es; [|discriminate].
+  cbn [copy_all files_only_rs] in *.
+  destruct (handle_sd a s g fs) as [fs1 e|fs1 e|fs1] eqn:Es; [|discriminate|discriminate].
   rewrite copy_all_acc in *. cbn [h_ok h_fs h_log app] in *.
   destruct (handle_sd_spec _ _ _ _ _ _ Es) as [c [_ [Hc [_ Hf]]]].
-  destruct (IH fs1 Hk2 Hok) as [Hlen Hall].
+  destruct (IH fs1 Hk2 Hfo Hok) as [Hlen Hall].
   split; [cbn [List.length]; rewrite Hlen; reflexivity|].
   intro q. rewrite (Hall q). cbn [last_write].
   destruct (last_write q (h_log (copy_all tar l fs1 []))); [reflexivity|].
@@ -822,4 +878,360 @@ Lemma steps_log_head step d l fs fs1 e :
   (e, match file_at e fs1 with Some c => c | None => Plain 0 end) :: h_log (steps step l fs1 []).
 Proof.
   intros Es Ht. cbn [steps]. rewrite Es, Ht. rewrite steps_acc. reflexivity.
+Qed.
+
+(* --------------------- every directive creates the missing parents of its target *)
+
+Lemma is_prefix_app a b : is_prefix a (a ++ b) = true.
+Proof. induction a as [|x a IH]; [reflexivity|]. simpl. rewrite String.eqb_refl. exact IH. Qed.
+
+Lemma is_prefix_refl a : is_prefix a a = true.
+Proof. rewrite <- (app_nil_r a) at 2. apply is_prefix_app. Qed.
+
+Lemma is_prefix_app_r p a b : is_prefix p a = true -> is_prefix p (a ++ b) = true.
+Proof.
+  revert a; induction p as [|x p IH]; intros a H; [reflexivity|].
+  destruct a as [|y a]; [discriminate|]. simpl in *.
+  apply andb_true_iff in H as [H1 H2]. rewrite H1. exact (IH a H2).
+Qed.
+
+Lemma is_prefix_longer l x : is_prefix (l ++ [x]) l = false.
+Proof. induction l as [|y l IH]; [reflexivity|]. simpl. rewrite String.eqb_refl. exact IH. Qed.
+
+Lemma is_dir_cons x p fs : is_dir (x :: p) fs = match lookup (x :: p) fs with Some D => true | _ => false end.
+Proof. reflexivity. Qed.
+
+Lemma snoc_cons {A} (l : list A) x : exists y r, l ++ [x] = y :: r.
+Proof. destruct l as [|y l]; [exists x, []|exists y, (l ++ [x])]; reflexivity. Qed.
+
+(* if no file sits on the way, the directories down to pre ++ rest get created *)
+Lemma mkdirs_ok rest : forall pre_ fs,
+  (forall p, is_prefix p (pre_ ++ rest) = true -> file_at p fs = None) ->
+  exists fs', mkdirs pre_ rest fs = Some fs' /\
+              (rest <> [] -> lookup (pre_ ++ rest) fs' = Some D) /\
+              (forall q, is_prefix q (pre_ ++ rest) = false -> lookup q fs' = lookup q fs).
+Proof.
+  induction rest as [|c rest IH]; intros pre_ fs H.
+  - exists fs. split; [reflexivity|]. split; [intro Hn; contradiction|auto].
+  - cbn [mkdirs].
+    assert (Eapp : (pre_ ++ [c]) ++ rest = pre_ ++ c :: rest) by (rewrite <- app_assoc; reflexivity).
+    assert (Hp : is_prefix (pre_ ++ [c]) (pre_ ++ c :: rest) = true) by (rewrite <- Eapp; apply is_prefix_app).
+    pose proof (H _ Hp) as Hfile. unfold file_at in Hfile.
+    destruct (lookup (pre_ ++ [c]) fs) as [[|cc]|] eqn:E; [| discriminate |].
+    + destruct (IH (pre_ ++ [c]) fs) as [fs' [Hm [Hd Hq]]].
+      { intros p Hpp. apply H. rewrite <- Eapp. exact Hpp. }
+      exists fs'. split; [exact Hm|]. split.
+      * intros _. rewrite <- Eapp. destruct rest as [|c2 rest].
+        -- cbn [mkdirs] in Hm. injection Hm as <-. rewrite app_nil_r. exact E.
+        -- apply Hd. discriminate.
+      * intros q Hqq. apply Hq. rewrite Eapp. exact Hqq.
+    + destruct (IH (pre_ ++ [c]) (set (pre_ ++ [c]) D fs)) as [fs' [Hm [Hd Hq]]].
+      { intros p Hpp. rewrite Eapp in Hpp. specialize (H p Hpp).
+        destruct (path_eqb p (pre_ ++ [c])) eqn:Ep.
+        - apply path_eqb_eq in Ep. subst p. unfold file_at. rewrite lookup_set_eq. reflexivity.
+        - rewrite file_at_set_neq; [exact H|]. intro Heq. subst p. rewrite path_eqb_refl in Ep. discriminate. }
+      exists fs'. split; [exact Hm|]. split.
+      * intros _. rewrite <- Eapp. destruct rest as [|c2 rest].
+        -- cbn [mkdirs] in Hm. injection Hm as <-. rewrite app_nil_r. apply lookup_set_eq.
+        -- apply Hd. discriminate.
+      * intros q Hqq. rewrite (Hq q); [|rewrite Eapp; exact Hqq].
+        apply lookup_set_neq. intro Heq. subst q. rewrite Hp in Hqq. discriminate.
+Qed.
+
+(* the state a directive needs: its source is a file, nothing but directories
+   (present or MISSING) on the way to its target, the target itself is free *)
+Record ready_file (s g : rloc) (c : content) (fs : fsys) : Prop := {
+  rf_s : r_empty s = false;
+  rf_g : r_empty g = false;
+  rf_trail : r_trail g = false;
+  rf_src : file_at (r_comps s) fs = Some c;
+  rf_nonroot : r_comps g <> [];
+  rf_free : lookup (r_comps g) fs = None;
+  rf_way : forall p, is_prefix p (r_comps g) = true -> file_at p fs = None;
+  rf_other : r_comps s <> r_comps g
+}.
+
+Lemma ready_file_parent s g c fs : ready_file s g c fs ->
+  exists fs1, mkdir_p (dirname_of g) fs = Some fs1 /\
+              file_at (r_comps s) fs1 = Some c /\
+              is_dir (parent (r_comps g)) fs1 = true /\
+              is_dir (r_comps g) fs1 = false /\ exists_at (r_comps g) fs1 = false.
+Proof.
+  intros [Hs Hg Ht Hsrc Hnr Hfree Hway Hoth].
+  unfold dirname_of. rewrite Ht. unfold mkdir_p.
+  destruct (exists_last Hnr) as [gp [x Eg]].
+  assert (Epar : parent (r_comps g) = gp) by (unfold parent; rewrite Eg; apply removelast_last).
+  rewrite Epar.
+  destruct (mkdirs_ok gp [] fs) as [fs1 [Hm [Hd Hq]]].
+  { intros p Hp. apply Hway. rewrite Eg. apply is_prefix_app_r. exact Hp. }
+  exists fs1. split; [exact Hm|].
+  split; [rewrite (mkdirs_file_at _ _ _ _ Hm); exact Hsrc|].
+  assert (Hl : lookup (r_comps g) fs1 = None).
+  { rewrite (Hq (r_comps g)); [exact Hfree|]. rewrite Eg. apply is_prefix_longer. }
+  split.
+  - destruct gp as [|y gp]; [reflexivity|]. rewrite is_dir_cons. cbn [app] in Hd. rewrite Hd; [reflexivity|discriminate].
+  - destruct (snoc_cons gp x) as [y [r Er]]. rewrite Eg, Er in *. split.
+    + rewrite is_dir_cons, Hl. reflexivity.
+    + cbn [exists_at]. rewrite Hl. reflexivity.
+Qed.
+
+(* THE statement: whatever happened to the directories above the target
+   before -- moved away, removed, never there -- the directive is carried out *)
+Lemma stage_on_demand a s g c fs :
+  In a [Transfer; Copy; Link; Move] -> ready_file s g c fs ->
+  exists fs', handle_sd a s g fs = Ok fs' (r_comps g) /\ file_at (r_comps g) fs' = Some c.
+Proof.
+  intros Ha Hr. destruct (ready_file_parent _ _ _ _ Hr) as [fs1 [Em [Hs1 [Hpar [Hnd Hne]]]]].
+  destruct Hr as [Hs Hg Ht Hsrc Hnr Hfree Hway Hoth].
+  assert (Hneq : path_eqb (r_comps s) (r_comps g) = false) by (apply path_eqb_neq; exact Hoth).
+  assert (Hcopy : op_copy s g fs = Ok (set (r_comps g) (F c) fs1) (r_comps g)).
+  { unfold op_copy. rewrite Hg, Em, Hs, Hs1. unfold cp_into. rewrite Hnd, Ht. cbn [andb negb].
+    rewrite Hnd, Hpar. cbn [negb]. rewrite Hneq. reflexivity. }
+  destruct Ha as [<-|[<-|[<-|[<-|[]]]]]; cbn [handle_sd].
+  - eexists. split; [exact Hcopy|apply file_at_set_eq].
+  - eexists. split; [exact Hcopy|apply file_at_set_eq].
+  - eexists. split; [|apply file_at_set_eq].
+    unfold op_link. rewrite Hg, Em, Hs, Hs1, Ht, Hne, Hpar. reflexivity.
+  - eexists. split; [|apply file_at_set_eq].
+    unfold op_move. rewrite Hg, Em, Hs, Hs1, Hnd, Ht, Hpar. reflexivity.
+Qed.
+
+(* ------------------------------------------- directory sources (cp -r, shutil.move) *)
+
+Lemma path_eqb_app_l e a b : path_eqb (e ++ a) (e ++ b) = path_eqb a b.
+Proof. induction e as [|x e IH]; [reflexivity|]. simpl. rewrite String.eqb_refl. exact IH. Qed.
+
+Lemma prefix_skipn s : forall q, is_prefix s q = true -> q = s ++ skipn (List.length s) q.
+Proof.
+  induction s as [|x s IH]; intros q H; [reflexivity|].
+  destruct q as [|y q]; [discriminate|]. simpl in *.
+  apply andb_true_iff in H as [H1 H2]. apply String.eqb_eq in H1. subst y. f_equal. exact (IH q H2).
+Qed.
+
+Lemma not_under_neq s rel q : is_prefix s q = false -> path_eqb (s ++ rel) q = false.
+Proof.
+  intro H. destruct (path_eqb (s ++ rel) q) eqn:E; [|reflexivity].
+  apply path_eqb_eq in E. subst q. rewrite is_prefix_app in H. discriminate.
+Qed.
+
+(* looking below the new place e = looking below the old place s *)
+Lemma lookup_rebased s e rel rest fs :
+  lookup (e ++ rel) (map (rebase s e) (filter (under s) fs) ++ rest) =
+  match lookup (s ++ rel) fs with Some n => Some n | None => lookup (e ++ rel) rest end.
+Proof.
+  induction fs as [|[q n] fs IH]; [reflexivity|].
+  cbn [filter]. unfold under at 1. cbn [fst].
+  destruct (is_prefix s q) eqn:E.
+  - cbn [map app]. unfold rebase at 1. cbn [fst snd lookup].
+    rewrite path_eqb_app_l.
+    rewrite (prefix_skipn s q E) at 2. rewrite path_eqb_app_l.
+    destruct (path_eqb rel (skipn (List.length s) q)); [reflexivity|exact IH].
+  - cbn [lookup]. rewrite (not_under_neq s rel q E). exact IH.
+Qed.
+
+(* a directory result: the tree is at e (the target, or target/basename for a
+   directory target) and every file below the source is below e with its content *)
+Definition tree_spec (s : path) (g : rloc) (fs fs' : fsys) (e : path) : Prop :=
+  (e = r_comps g \/ e = r_comps g ++ [last s EmptyString]) /\
+  forall rel c, file_at (s ++ rel) fs = Some c -> file_at (e ++ rel) fs' = Some c.
+
+Lemma cp_dir_spec s g fs fs' e : cp_dir s g fs = OkDir fs' e -> tree_spec s g fs fs' e.
+Proof.
+  unfold cp_dir.
+  destruct (r_trail g && negb (is_dir (r_comps g) fs)); [discriminate|].
+  destruct (is_prefix s _); [discriminate|].
+  destruct (negb (is_dir (r_comps g) fs) && exists_at _ fs); [discriminate|].
+  destruct (negb (is_dir (parent _) fs)); [discriminate|].
+  destruct (tree_conflict s _ fs); [discriminate|].
+  intro H. injection H as <- <-. split.
+  - destruct (is_dir (r_comps g) fs); auto.
+  - intros rel c Hc. unfold file_at in *. unfold copy_tree. rewrite lookup_rebased.
+    destruct (lookup (s ++ rel) fs) as [[|cc]|]; try discriminate. exact Hc.
+Qed.
+
+Lemma mv_dir_spec s g fs fs' e : mv_dir s g fs = OkDir fs' e -> tree_spec s g fs fs' e.
+Proof.
+  unfold mv_dir.
+  destruct (r_trail g && negb (is_dir (r_comps g) fs)); [discriminate|].
+  destruct (is_prefix s _); [discriminate|].
+  destruct (exists_at _ fs); [discriminate|].
+  destruct (negb (is_dir (parent _) fs)); [discriminate|].
+  intro H. injection H as <- <-. split.
+  - destruct (is_dir (r_comps g) fs); auto.
+  - intros rel c Hc. unfold file_at in *. unfold move_tree. rewrite lookup_rebased.
+    destruct (lookup (s ++ rel) fs) as [[|cc]|]; try discriminate. exact Hc.
+Qed.
+
+Lemma cp_into_not_dir c b so g fs fs' e : cp_into c b so g fs <> OkDir fs' e.
+Proof. unfold cp_into. repeat match goal with |- context [if ?x then _ else _] => destruct x end; discriminate. Qed.
+
+(* transfer / copy / move of a directory: the source was a directory when the
+   directive ran, and all its files are at the target afterwards *)
+Lemma handle_sd_dir_spec a s g fs fs' e :
+  handle_sd a s g fs = OkDir fs' e ->
+  exists fs1, mkdir_p (dirname_of g) fs = Some fs1 /\ is_dir (r_comps s) fs1 = true /\
+              tree_spec (r_comps s) g fs1 fs' e.
+Proof.
+  assert (Hcopy : op_copy s g fs = OkDir fs' e ->
+                  exists fs1, mkdir_p (dirname_of g) fs = Some fs1 /\ is_dir (r_comps s) fs1 = true /\
+                              tree_spec (r_comps s) g fs1 fs' e).
+  { unfold op_copy. destruct (r_empty g); [discriminate|].
+    destruct (mkdir_p (dirname_of g) fs) as [fs1|]; [|discriminate].
+    destruct (r_empty s); [discriminate|].
+    destruct (file_at (r_comps s) fs1).
+    - intro H. exfalso. exact (cp_into_not_dir _ _ _ _ _ _ _ H).
+    - destruct (is_dir (r_comps s) fs1) eqn:Ed; [|discriminate].
+      intro H. exists fs1. split; [reflexivity|]. split; [exact Ed|]. exact (cp_dir_spec _ _ _ _ _ H). }
+  destruct a; cbn [handle_sd]; try discriminate; try exact Hcopy.
+  - unfold op_link. repeat match goal with |- context [match ?x with _ => _ end] => destruct x end; discriminate.
+  - unfold op_move. destruct (r_empty g); [discriminate|].
+    destruct (mkdir_p (dirname_of g) fs) as [fs1|]; [|discriminate].
+    destruct (r_empty s); [discriminate|].
+    destruct (file_at (r_comps s) fs1).
+    + repeat match goal with |- context [if ?x then _ else _] => destruct x end; discriminate.
+    + destruct (is_dir (r_comps s) fs1) eqn:Ed; [|discriminate].
+      intro H. exists fs1. split; [reflexivity|]. split; [exact Ed|]. exact (mv_dir_spec _ _ _ _ _ H).
+Qed.
+
+Lemma under_not_above gp x : forall q, is_prefix (gp ++ [x]) q = true -> is_prefix q gp = false.
+Proof.
+  induction gp as [|y gp IH]; intros q H.
+  - destruct q as [|z q]; [discriminate|reflexivity].
+  - destruct q as [|z q]; [discriminate|]. simpl in *.
+    apply andb_true_iff in H as [H1 H2]. apply String.eqb_eq in H1. subst z.
+    rewrite String.eqb_refl. exact (IH q H2).
+Qed.
+
+Lemma existsb_all_false {A} (f : A -> bool) l : (forall x, In x l -> f x = false) -> existsb f l = false.
+Proof.
+  induction l as [|x l IH]; intro H; [reflexivity|]. simpl. rewrite (H x (or_introl eq_refl)).
+  apply IH. intros y Hy. apply H. right. exact Hy.
+Qed.
+
+(* the state a directory directive needs: the source is a directory, nothing
+   at or below the target, nothing but directories (present or missing) above it *)
+Record ready_dir (s g : rloc) (fs : fsys) : Prop := {
+  rd_s : r_empty s = false;
+  rd_g : r_empty g = false;
+  rd_trail : r_trail g = false;
+  rd_src : lookup (r_comps s) fs = Some D;
+  rd_srcnonroot : r_comps s <> [];
+  rd_nonroot : r_comps g <> [];
+  rd_free : forall q, is_prefix (r_comps g) q = true -> lookup q fs = None;
+  rd_way : forall p, is_prefix p (r_comps g) = true -> file_at p fs = None;
+  rd_apart : is_prefix (r_comps s) (r_comps g) = false
+}.
+
+Lemma dir_on_demand a s g fs :
+  In a [Transfer; Copy; Move] -> ready_dir s g fs ->
+  exists fs', handle_sd a s g fs = OkDir fs' (r_comps g) /\
+              forall rel c, file_at (r_comps s ++ rel) fs = Some c -> file_at (r_comps g ++ rel) fs' = Some c.
+Proof.
+  intros Ha [Hs Hg Ht Hsrc Hsn Hnr Hfree Hway Hap].
+  destruct (exists_last Hnr) as [gp [x Eg]].
+  assert (Epar : parent (r_comps g) = gp) by (unfold parent; rewrite Eg; apply removelast_last).
+  destruct (mkdirs_ok gp [] fs) as [fs1 [Hm [Hd Hq]]].
+  { intros p Hp. apply Hway. rewrite Eg. apply is_prefix_app_r. exact Hp. }
+  assert (Em : mkdir_p (dirname_of g) fs = Some fs1) by (unfold dirname_of, mkdir_p; rewrite Ht, Epar; exact Hm).
+  assert (Hfree1 : forall q, is_prefix (r_comps g) q = true -> lookup q fs1 = None).
+  { intros q Hqq. rewrite (Hq q); [exact (Hfree q Hqq)|]. cbn [app]. rewrite Eg in Hqq. exact (under_not_above gp x q Hqq). }
+  assert (Hpar : is_dir (parent (r_comps g)) fs1 = true).
+  { rewrite Epar. destruct gp as [|y gp]; [reflexivity|]. rewrite is_dir_cons. cbn [app] in Hd.
+    rewrite Hd; [reflexivity|discriminate]. }
+  assert (Hlg : lookup (r_comps g) fs1 = None) by (apply Hfree1; apply is_prefix_refl).
+  assert (Hnd : is_dir (r_comps g) fs1 = false /\ exists_at (r_comps g) fs1 = false).
+  { destruct (snoc_cons gp x) as [y [r Er]]. rewrite Eg, Er in *. split.
+    - rewrite is_dir_cons, Hlg. reflexivity.
+    - cbn [exists_at]. rewrite Hlg. reflexivity. }
+  destruct Hnd as [Hnd Hne].
+  assert (Hls : lookup (r_comps s) fs1 = Some D).
+  { rewrite (Hq (r_comps s)); [exact Hsrc|]. cbn [app].
+    destruct (is_prefix (r_comps s) gp) eqn:E; [|reflexivity].
+    rewrite Eg in Hap. rewrite (is_prefix_app_r _ _ [x] E) in Hap. discriminate. }
+  assert (Hsd : is_dir (r_comps s) fs1 = true /\ file_at (r_comps s) fs1 = None).
+  { unfold file_at. rewrite Hls. split; [|reflexivity].
+    destruct (r_comps s) as [|y r] eqn:Es; [contradiction|]. rewrite is_dir_cons, Hls. reflexivity. }
+  destruct Hsd as [Hsd Hsf].
+  assert (Hconf : tree_conflict (r_comps s) (r_comps g) fs1 = false).
+  { unfold tree_conflict. apply existsb_all_false. intros y _.
+    unfold rebase. cbn [fst snd]. rewrite (Hfree1 (r_comps g ++ _) (is_prefix_app _ _)).
+    destruct (snd y); reflexivity. }
+  assert (Hfile : forall rel c, file_at (r_comps s ++ rel) fs = Some c -> file_at (r_comps s ++ rel) fs1 = Some c).
+  { intros rel c Hc. rewrite (mkdirs_file_at _ _ _ _ Hm). exact Hc. }
+  assert (Hcopy : op_copy s g fs = OkDir (copy_tree (r_comps s) (r_comps g) fs1) (r_comps g)).
+  { unfold op_copy. rewrite Hg, Em, Hs, Hsf, Hsd. unfold cp_dir. rewrite Hnd, Ht, Hap. cbn [andb negb].
+    rewrite Hne, Hpar. cbn [negb]. rewrite Hconf. reflexivity. }
+  assert (Hcs : tree_spec (r_comps s) g fs1 (copy_tree (r_comps s) (r_comps g) fs1) (r_comps g)).
+  { apply cp_dir_spec. unfold cp_dir. rewrite Hnd, Ht, Hap. cbn [andb negb].
+    rewrite Hne, Hpar. cbn [negb]. rewrite Hconf. reflexivity. }
+  assert (Hmove : mv_dir (r_comps s) g fs1 = OkDir (move_tree (r_comps s) (r_comps g) fs1) (r_comps g)).
+  { unfold mv_dir. rewrite Hnd, Ht, Hap, Hne, Hpar. reflexivity. }
+  destruct Ha as [<-|[<-|[<-|[]]]]; cbn [handle_sd].
+  - eexists. split; [exact Hcopy|]. intros rel c Hc. apply (proj2 Hcs). exact (Hfile rel c Hc).
+  - eexists. split; [exact Hcopy|]. intros rel c Hc. apply (proj2 Hcs). exact (Hfile rel c Hc).
+  - eexists. split.
+    + unfold op_move. rewrite Hg, Em, Hs, Hsf, Hsd. exact Hmove.
+    + intros rel c Hc. apply (proj2 (mv_dir_spec _ _ _ _ _ Hmove)). exact (Hfile rel c Hc).
+Qed.
+
+(* ------------- sequences: each directive is carried out in the state it finds *)
+
+Definition staged_actions : list action := [Transfer; Copy; Link; Move].
+
+(* a sequence of resolved directives, each with the content its source is to
+   have when its turn comes; readiness is required of the state the directive
+   FINDS -- whatever the earlier ones moved, removed or overwrote *)
+Fixpoint ready_seq (l : list (rsd * content)) (fs : fsys) : Prop :=
+  match l with
+  | [] => True
+  | (RSd a s g, c) :: r =>
+      In a staged_actions /\ ready_file s g c fs /\
+      forall fs', handle_sd a s g fs = Ok fs' (r_comps g) -> ready_seq r fs'
+  | (RTar _, _) :: _ => False
+  end.
+
+Fixpoint staged_seq (l : list (rsd * content)) (fs : fsys) : Prop :=
+  match l with
+  | [] => True
+  | (RSd a s g, c) :: r =>
+      exists fs', handle_sd a s g fs = Ok fs' (r_comps g) /\ file_at (r_comps g) fs' = Some c /\ staged_seq r fs'
+  | (RTar _, _) :: _ => False
+  end.
+
+Lemma seq_on_demand tar l : forall fs, ready_seq l fs ->
+  h_ok (copy_all tar (map fst l) fs []) = true /\ staged_seq l fs.
+Proof.
+  induction l as [|[[a s g|g] c] l IH]; intros fs H; [split; [reflexivity|exact I]| |contradiction].
+  cbn [ready_seq] in H. destruct H as [Ha [Hr Hnext]].
+  destruct (stage_on_demand a s g c fs Ha Hr) as [fs' [Hh Hc]].
+  destruct (IH fs' (Hnext fs' Hh)) as [Hok Hst].
+  split.
+  - cbn [map fst copy_all]. rewrite Hh. rewrite copy_all_acc. exact Hok.
+  - cbn [staged_seq]. exists fs'. auto.
+Qed.
+
+(* the same for one directive of the agent stagers (resolution in the agent
+   context, then the action) *)
+Lemma agent_out_on_demand t d s g c fs :
+  complete_url (agent_ctx (t_sb t)) (s_src d) = inr s ->
+  complete_url (agent_ctx (t_sb t)) (agent_fix_tgt (s_src d) (s_tgt d) fs) = inr g ->
+  r_schema s = "file" -> r_schema g = "file" -> In (s_act d) staged_actions -> ready_file s g c fs ->
+  exists fs', agent_out_step t d fs = Ok fs' (r_comps g) /\ file_at (r_comps g) fs' = Some c.
+Proof.
+  intros Hs Hg Hss Hsg Ha Hr. unfold agent_out_step. rewrite Hs, Hg, Hss, Hsg. cbn [String.eqb negb].
+  change (("file" =? "file")%string) with true. cbn [negb].
+  exact (stage_on_demand _ _ _ _ _ Ha Hr).
+Qed.
+
+Lemma agent_in_on_demand t d s g c fs :
+  complete_url (agent_ctx (t_sb t)) (s_src d) = inr s ->
+  complete_url (agent_ctx (t_sb t)) (agent_fix_tgt (s_src d) (s_tgt d) fs) = inr g ->
+  r_schema g = "file" -> In (s_act d) staged_actions -> ready_file s g c fs ->
+  exists fs', agent_in_step t d fs = Ok fs' (r_comps g) /\ file_at (r_comps g) fs' = Some c.
+Proof.
+  intros Hs Hg Hsg Ha Hr. unfold agent_in_step. rewrite Hs, Hg, Hsg.
+  change (("file" =? "file")%string) with true. cbn [negb]. rewrite andb_false_r.
+  assert (Ht : action_eqb (s_act d) Tarball = false)
+    by (destruct Ha as [<-|[<-|[<-|[<-|[]]]]]; reflexivity).
+  rewrite Ht. exact (stage_on_demand _ _ _ _ _ Ha Hr).
 Qed.
